@@ -350,7 +350,7 @@ def main():
                         rcm, outm = make_targets([P["run_vo"]], timeout=900)
                         if rcm != 0:
                             broken.append("model runner does not compile: " + outm[-800:])
-                    results = run_model(meta, timeout=P.get("model_timeout", 900))
+                    results = run_model(meta, timeout=P.get("model_timeout", 900) if tier == "quick" else max(3000, P.get("model_timeout", 900)))
                     for r in results:
                         if "error" in r:
                             corr["model_errors"].append(r["error"][-600:])
